@@ -203,6 +203,10 @@ func (h *memoHarness) Gen(r *Rand, tier string, clean bool) any {
 					switch {
 					case op.K == "exist":
 						op.F = &FaultSpec{Mode: "fail"}
+					case r.Chance(0.25):
+						// the caller gives up while the wrapped lookup is streaming: its context is cancelled right before
+						// element j leaves the wrapped driver
+						op.F = &FaultSpec{Mode: "cancel", J: r.Range(1, 3)}
 					case r.Chance(0.3):
 						op.F = &FaultSpec{Mode: "before"}
 					default:
@@ -408,7 +412,14 @@ func (h *memoHarness) runSequential(t *testing.T, c *MemoCase) *Outcome {
 		sig = append(sig, fmt.Sprintf("%s%d", op.K, op.H))
 		// faulty-driver configuration: the next call this op makes on the wrapped driver fails
 		armed, fired := false, false
+		opCtx := ctx
 		if ss != nil && op.F != nil {
+			if op.F.Mode == "cancel" {
+				var cancel context.CancelFunc
+				opCtx, cancel = context.WithCancel(ctx)
+				defer cancel()
+				ss.cfg.Cancel = cancel
+			}
 			ss.arm(*op.F)
 			armed = true
 			sig[len(sig)-1] += "!" + op.F.Mode
@@ -474,7 +485,7 @@ func (h *memoHarness) runSequential(t *testing.T, c *MemoCase) *Outcome {
 			}
 			lo1, lo2 := os.Build(), os.Build()
 			snap := optsSnapshot(lo1)
-			got := doLookup(ctx, hd, *op.L, lo1, c.Cap)
+			got := doLookup(opCtx, hd, *op.L, lo1, c.Cap)
 			settle()
 			want := doLookup(ctx, inner, *op.L, lo2, c.Cap)
 			o.stat("reads", 1)
@@ -483,6 +494,15 @@ func (h *memoHarness) runSequential(t *testing.T, c *MemoCase) *Outcome {
 			}
 			if !got.Closed {
 				return violation("C19:channel-not-closed", "op %d %s: wrapper did not close the channel", i, op.desc(c))
+			}
+			if fired && op.F.Mode == "cancel" {
+				// the caller cancelled its own read: it may fail or not, but it never delivers anything the wrapped store does
+				// not hold, in order; what matters is the next read
+				if len(got.Keys) > len(want.Keys) || !equalStrings(got.Keys, want.Keys[:len(got.Keys)]) {
+					return violation("C19:wrong-data-on-cancelled-read", "op %d %s: delivered %q, the wrapped store holds %q\nhistory: %s", i, op.desc(c), got.Keys, want.Keys, h.renderSeq(c, i))
+				}
+				afterFault = true
+				continue
 			}
 			if fired {
 				// the wrapped driver returned an error (before or after part of the elements): so must the wrapper,
